@@ -43,7 +43,11 @@ def gen_rule_cfg(rng: random.Random, case: Case, rules=("mes", "greedy", "phragm
     elif rule == "phragmen":
         cfg["init"] = core.gen_init(rng, case) if allow_init else []
         if rng.random() < 0.3:
-            cfg["loads_per_voter"] = [F(rng.choice([0, 0, 1, F(1, 2), 2])) for _ in case.ballots]
+            # equal ballots get equal initial loads, so that the multiprofile presentation is the same election
+            by_key = {}
+            for b in case.ballots:
+                by_key.setdefault(case.ballot_key(b), F(rng.choice([0, 0, 1, F(1, 2), 2])))
+            cfg["loads_per_voter"] = [by_key[case.ballot_key(b)] for b in case.ballots]
     elif rule == "maxw":
         cfg["sat"] = rng.choice(add)
         cfg["algo"] = "pd"
